@@ -12,9 +12,11 @@ def keyfn(r):
     if "uncaught exception" in err:
         cls = "traceback/" + err.split("TRACEBACK ")[-1].split(":")[0]
     elif "exited with" in err:
-        got = err.split("exited with ")[1].split(",")[0]
-        want = err.split("expected ")[1].split(";")[0]
+        got = err.split("exited with ")[1].split(",")[0].split(";")[0].split(" ")[0]
+        want = err.split("expected ")[1].split(";")[0].split(" ")[0] if "expected " in err else "0-or-1"
         cls = "exit-code/%s-instead-of-%s" % (got, want)
+    elif "does not satisfy the constraint" in err or "must reject" in err or "changed an already valid input" in err:
+        cls = "generated-output-invalid"
     elif "rejects" in err:
         cls = "parse-output-rejected-by-check"
     elif "without an error message" in err:
